@@ -697,7 +697,7 @@ def run(tier, seed, replay=None):
         "correspondence_mismatches": len(mism),
         "spec_failures_on_impl": nspec,
         "known_finding_hits": nknown,
-        "unproved": ["CalcDataSizes keeps the flag bits 44..59 of the vertex descriptor (bit-level argument through SetAttributeOffset/SetSize/SetFlags): modelled and compared with the implementation's descriptor word on every save, not proved; the reload theorems are therefore stated on the finalised descriptor"],
+        "unproved": [],
         "trusted_base": vlib.BASE_TRUSTED + [
             "modelled, not verified: std::vector (lists; loops walk vectors with the counter and fault when a vector ends first)",
             "not modelled (Section variables without assumptions): Miniball bounding sphere, tangent-space arithmetic, binary16 conversion (half.hpp)",
